@@ -37,6 +37,13 @@ def cases(tier, seed, args):
         dist = ['gauss_full', 'gauss_diagonal', 'gauss_spherical', 'cgauss', 'bingham', 'watson', 'vmf'][i % 7]
         out.append(dict(t='density', dist=dist, D=int(rng.integers(2, 5)), L=[int(rng.integers(1, 3)) for _ in range(int(rng.integers(0, 2)))],
                         P=2, seed=int(rng.integers(1 << 30)), cond=10.0, kappa_exp=0.5, mean_scale=1.0, layout='C', int_params=True))
+    # many independent parameter sets at once (stacks of 33 .. 72 leading entries)
+    for i in range(8 if q else 48):
+        dist = DISTS[i % 8]
+        lo = 2
+        out.append(dict(t='density', dist=dist, D=int(rng.integers(lo, 4)), L=[[40], [5, 8], [3, 4, 3], [33]][(i // 8 + i) % 4], P=2,
+                        seed=int(rng.integers(1 << 30)), cond=float(10.0 ** rng.choice([0, 2, 4])), kappa_exp=float(rng.uniform(-1, 2)),
+                        mean_scale=1.0, layout='C'))
     # concentration sweeps of the directional normalisers: geometric grid over the whole admissible range, every dimension
     grid = np.geomspace(1e-6, 499.0, 32 if q else 128)
     for D in ((2, 4, 6) if q else (2, 3, 4, 5, 6)):
